@@ -84,8 +84,22 @@ def _(k):
                    in_window(s, es, s.result),
                    z3.ForAll([j], implies(And(i0 <= j, j < i1 - 1), skipped(s, es, elist(es)[j]))))
 
+    def single_step(s):
+        # instance of the quantified clause at the old position (redundant, stated for the benefit of callers' proofs)
+        it = s.a.self
+        i0 = it_index(s.old.a.self).t
+        return Or(it_index(it).t == i0 + 1, skipped(s, it_set(it), elist(it_set(it))[i0]))
+
+    def stop_hint(s):
+        it = s.a.self
+        es = it_set(it)
+        i0 = it_index(s.old.a.self).t
+        i1 = it_index(it).t
+        return Or(And(i1 == i0, i0 == it_size(it).t), skipped(s, es, elist(es)[i0]), And(i1 == i0 + 1, entry_day(s, elist(es)[i0]) > eto(es).t))
     k.requires("wf", lambda s: it_wf(s, s.a.self))
     k.ensures("yields_next_in_window", post)
+    k.ensures("one_step_unless_first_skipped", single_step)
+    k.raises_ensures("StopIteration", "stop_at_old_position_unless_first_skipped", stop_hint)
     k.ensures("wf", lambda s: it_wf(s, s.a.self))
     k.raises("StopIteration")
     k.modifies("EntrySetIterator.__index", refs=lambda s: [s.a.self])
